@@ -171,7 +171,9 @@ Section Sflow.
 
   (* SFDecode.  Datagram JSON (struct order): Version, IPVersion, AgentSubID, SequenceNo, SysUpTime,
      SamplesNo, Samples, Counters, IPAddress, ColTime (ColTime is the collection time; printed as 0) *)
-  Definition sf_decode (filter : list Z) (p : bytes) : outcome (option jv) :=
+  (* first component: SFDecode returned without error (the datagram "decodes successfully");
+     second: the document the worker publishes, if any *)
+  Definition sf_decode (filter : list Z) (p : bytes) : outcome (bool * option jv) :=
     let r0 := {| sd := p; sp := 0 |} in
     match catch (v <- sread_u 4 r0 ;;
                  if negb (fst v =? 5) then Err EInvalid else
@@ -179,16 +181,16 @@ Section Sflow.
                  ip <- sread_buf (if fst iv =? 2 then 16 else 4) (snd iv) ;;
                  sub <- sread_u 4 (snd ip) ;; sq <- sread_u 4 (snd sub) ;; up <- sread_u 4 (snd sq) ;; n <- sread_u 4 (snd up) ;;
                  Ok (fst v, fst iv, fst ip, fst sub, fst sq, fst up, fst n, snd n)) with
-    | Ok None => Ok None
+    | Ok None => Ok (false, None)
     | Ok (Some (v, iv, ip, sub, sq, up, n, r)) =>
       res <- samples_loop (sfuel r) filter n r [] [] ;;
       match res with
-      | SFErr | SFPartial => Ok None
+      | SFErr | SFPartial => Ok (false, None)
       | SFOk ss cs =>
         (* the worker publishes only when there is at least one sample or counter *)
         match ss, cs with
-        | [], [] => Ok None
-        | _, _ => Ok (Some (JObj [("Version", JNum v); ("IPVersion", JNum iv); ("AgentSubID", JNum sub); ("SequenceNo", JNum sq);
+        | [], [] => Ok (true, None)
+        | _, _ => Ok (true, Some (JObj [("Version", JNum v); ("IPVersion", JNum iv); ("AgentSubID", JNum sub); ("SequenceNo", JNum sq);
                                   ("SysUpTime", JNum up); ("SamplesNo", JNum n); ("Samples", JArr ss); ("Counters", JArr cs);
                                   ("IPAddress", JStr (ip_string ip)); ("ColTime", JNum 0)]))
         end
